@@ -63,7 +63,7 @@ func (t *Targets) clean() {
 	t.SQLDB.Exec("DELETE FROM ws")
 	t.SQLDB.Exec("INSERT INTO ws(id,c1,s1) VALUES (1,1,'a'),(2,2,'b')")
 	t.SQLDB.Exec("DELETE FROM wss")
-	t.SQLDB.Exec("INSERT INTO wss(id,c1,s1,deleted_at) VALUES (1,1,'a',NULL),(2,2,'b',NULL),(3,3,'c','2020-01-01 00:00:00')")
+	t.SQLDB.Exec("INSERT INTO wss(id,c1,s1,deleted_at,created_ms,updated_s) VALUES (1,1,'a',NULL,5,5),(2,2,'b',NULL,5,5),(3,3,'c','2020-01-01 00:00:00',5,5)")
 	t.Rec.SetRecording(true)
 }
 
@@ -81,7 +81,7 @@ func safeRun(base *gorm.DB, p Prog) (res *gorm.DB, panicked string) {
 
 func (t *Targets) runAll(w *hx.Writer, caseNo int, p Prog) {
 	// C01: dummy dialects, DryRun  (Save / CreateInBatches are C19 programs only)
-	c19only := p.Fin.Kind == "save" || p.Fin.Kind == "create_batches"
+	c19only := p.Fin.Kind == "save" || p.Fin.Kind == "create_batches" || p.Fin.Kind == "row"
 	for _, tg := range []struct {
 		name string
 		db   *gorm.DB
@@ -143,7 +143,7 @@ func (t *Targets) runAll(w *hx.Writer, caseNo int, p Prog) {
 	scopedReal := t.Real.Dialector.Explain(sReal, sVars...)
 	drySQL, dryVals := dry.Statement.SQL.String(), idsOf(dry.Statement.Vars)
 	realVals := idsOf(realVars)
-	if p.Fin.Kind == "create_batches" {
+	if p.Fin.Kind == "create_batches" || p.Fin.Kind == "row" {
 		drySQL, realSQL, dryVals, realVals = "", "", []string{}, []string{}
 	}
 	if c19only || p.Fin.Kind == "create" || p.Fin.Kind == "create_slice" || p.Fin.Kind == "create_map" || p.Fin.Kind == "upsert" || p.Fin.Kind == "raw" || p.Fin.Kind == "exec" || p.Fin.Kind == "rows" {
